@@ -10,10 +10,10 @@ DIFF="$1"; NAME="$2"
 [ -n "$(git -C /repo status --porcelain)" ] && { echo "/repo not clean"; exit 2; }
 git -C /repo apply "$DIFF" || { echo "REFACTOR $NAME: patch does not apply"; exit 2; }
 ( cd /repo && go build ./... && go test -vet=off -count=1 ./... >/tmp/refactor_suite.log 2>&1 ) || { echo "REFACTOR $NAME: suite fails"; git -C /repo checkout -- .; exit 1; }
-fired=""
-for P in $(python3 -c "import json;print(' '.join(c['property_id'] for c in json.load(open('/verif/MANIFEST.json'))['checks']))"); do
-  out=$(/verif/bin/gotsverif -repo /repo -prop $P -tier quick -evidence /tmp/refactor_ev.json 2>&1) || { fired="$fired $P"; echo "$out" | grep -E "VIOLATED|UNDECIDED" -A1 | cut -c1-260 | head -8; }
-done
+# the twenty checks only read /repo: run them side by side
+fired=$(python3 -c "import json;print('\n'.join(c['property_id'] for c in json.load(open('/verif/MANIFEST.json'))['checks']))" | xargs -P 10 -I{} sh -c '/verif/bin/gotsverif -repo /repo -prop {} -tier quick -evidence /tmp/refactor_ev_{}.json >/tmp/refactor_out_{}.txt 2>&1 || echo {}' | sort | tr '\n' ' ')
+for P in $fired; do grep -E "VIOLATED|UNDECIDED" -A1 /tmp/refactor_out_$P.txt | cut -c1-260 | head -8; done
+rm -f /tmp/refactor_ev_*.json /tmp/refactor_out_*.txt
 git -C /repo checkout -- .
 D=/verif/refactors/$NAME; mkdir -p $D; cp "$DIFF" $D/patch.diff
 python3 - "$NAME" "$fired" <<'PY'
@@ -22,4 +22,3 @@ name,fired=sys.argv[1],sys.argv[2].split()
 json.dump({"refactoring":name,"expected":"every check silent (behaviour preserved)","checks_that_fired":fired},open(f"/verif/refactors/{name}/meta.json","w"),indent=1)
 PY
 echo "REFACTOR $NAME: fired=[$fired ]"
-rm -f /tmp/refactor_ev.json
